@@ -388,6 +388,9 @@ Third:
 			}
 		}
 	case '\n':
+		if l.heredoc.exists() && !l.scanHeredoc() {
+			return nil
+		}
 		l.emit('\n')
 		if !l.linebreak() {
 			return nil
@@ -414,6 +417,9 @@ In:
 		case WORD:
 			l.emit(WORD)
 		case ';', '\n':
+			if tok == '\n' && l.heredoc.exists() && !l.scanHeredoc() {
+				return nil
+			}
 			l.emit(tok)
 			if !l.linebreak() {
 				return nil
@@ -695,6 +701,15 @@ Redir:
 }
 
 func (l *lexer) lexHeredoc() action {
+	if !l.scanHeredoc() {
+		return nil
+	}
+	return l.lexToken('\n')
+}
+
+// scanHeredoc reads the bodies of the pending here-documents. It must be
+// called right after the <newline> which follows them.
+func (l *lexer) scanHeredoc() bool {
 	find := func(r *ast.Redir, delim string) bool {
 		for i := len(l.word) - 1; i >= 0; i-- {
 			if l.word[i].Pos().Col() == 1 {
@@ -731,7 +746,7 @@ func (l *lexer) lexHeredoc() action {
 			if err != nil {
 				if !l.heredoc.exists() {
 					if l.lit(); find(h, delim) {
-						return nil
+						return true
 					}
 				}
 				goto Error
@@ -775,14 +790,14 @@ func (l *lexer) lexHeredoc() action {
 					l.lit()
 					l.mark(-1)
 					if !l.scanParamExp() {
-						return nil
+						return false
 					}
 				case '`':
 					// command substitution
 					l.lit()
 					l.mark(-1)
 					if !l.scanCmdSubst('`') {
-						return nil
+						return false
 					}
 				default:
 					l.b.WriteRune(r)
@@ -796,10 +811,10 @@ func (l *lexer) lexHeredoc() action {
 			if err == io.EOF {
 				l.error(h.OpPos, "syntax error: here-document delimited by EOF")
 			}
-			return nil
+			return false
 		}
 	}
-	return l.lexToken('\n')
+	return true
 }
 
 func (l *lexer) scanArithExpr(pos ast.Pos) int {
@@ -1548,6 +1563,9 @@ func (l *lexer) linebreak() bool {
 			hash = false
 			l.comment()
 			l.mark(0)
+			if l.heredoc.exists() && !l.scanHeredoc() {
+				return false
+			}
 		case '#':
 			// comment
 			hash = true
